@@ -137,13 +137,22 @@ def base_env(cfg=None, tz="UTC", extra=None):
     return env
 
 
+def clock_env(epoch):
+    """Environment that pins CLOCK_REALTIME of the child to `epoch` (see fsv/clockshim.c)."""
+    if epoch is None:
+        return {}
+    return {"LD_PRELOAD": _build.SHIM_SO, "FSV_FAKE_EPOCH": str(int(epoch))}
+
+
 def run(argv, cwd, cfg=None, tz="UTC", nobody=False, extra_env=None, cpu=CPU_LIMIT_S,
-        wall=WALL_LIMIT_S, stdin=None):
+        wall=WALL_LIMIT_S, stdin=None, clock=None):
     """Run fselect with argv (list of str); returns Res. Never raises for fselect's own failures."""
     cmd = [BINARY] + list(argv)
     if nobody:
         cmd = ["setpriv", "--reuid", "65534", "--regid", "65534", "--clear-groups"] + cmd
     env = base_env(cfg, tz, extra_env)
+    if clock is not None:
+        env.update(clock_env(clock))
     p = subprocess.Popen(
         cmd, cwd=cwd, env=env, stdin=subprocess.DEVNULL if stdin is None else stdin,
         stdout=subprocess.PIPE, stderr=subprocess.PIPE, preexec_fn=_preexec(cpu),
